@@ -147,32 +147,34 @@ def parse_plain(text, name="verif"):
 
 
 def optimize_one(block):
-    """what optimize_asm_contract does for one block: optimize, compare, keep or revert.
-    returns dict(out_block, kept, eq, reason, error, log)"""
+    """what the tool does for one block, through the real gasol_asm.optimize_asm_contract (optimize, compare,
+    keep-or-revert) on a contract holding just this block.
+    returns dict(out_block, error, compare_error, reverted, reason, log)"""
     import gasol_asm
+    from sfs_generator.asm_contract import AsmContract
     p = _PARAMS
     res = {"error": None, "compare_error": None, "eq": None, "reason": "", "log": {}, "reverted": False}
-    with Silence():
+    c = AsmContract("verif.sol:" + (block.contract_name or "C"))
+    c.init_code = [block]
+    buf = Silence()
+    with buf:
         try:
-            new_block, log, _ = gasol_asm.optimize_asm_block_asm_format(block, p)
-        except Exception as e:            # noqa: the pipeline is not supposed to raise (C10)
+            new_contract, seq_rows, log_dicts, block_rows = gasol_asm.optimize_asm_contract(c, p)
+        except Exception as e:            # noqa: the per-block pipeline is not supposed to raise (C10)
             res["error"] = "%s: %s" % (type(e).__name__, e)
             res["out_block"] = block
             return res
-        res["candidate"] = new_block
-        try:
-            eq, reason = gasol_asm.compare_asm_block_asm_format(block, new_block, p)
-        except Exception as e:
-            res["compare_error"] = "%s: %s" % (type(e).__name__, e)
-            res["out_block"] = block
-            return res
-    res["eq"], res["reason"], res["log"] = bool(eq), reason, log
-    if not eq:
+    out = new_contract.init_code[0]
+    res["out_block"] = out
+    res["log"] = log_dicts
+    text = buf._buf.getvalue()
+    if "Comparison failed, so initial block is kept" in text:
         res["reverted"] = True
-        res["out_block"] = block
-        res["log"] = {}
+        i = text.find("[REASON]:")
+        res["reason"] = text[i + 9:i + 200].split("\n")[0].strip() if i >= 0 else ""
+        res["eq"] = False
     else:
-        res["out_block"] = new_block
+        res["eq"] = True
     return res
 
 
